@@ -165,6 +165,13 @@ def c03(ck):
                     tlc_workers=8 if ck.tier == "quick" else 12, timeout=3400)
 
 
+def deep_random(ck, walks):
+    """random deeper programs (12 nodes, depth 4, union alphabet) built by MC_Gen's generator phase, run on the machine
+    with all Interp invariants, replayed on the three store policies twice each"""
+    ck.replay_stage("random-deep", "MC_Gen", "MC_Gen.cfg", tlc_workers=4, simulate=walks // 4, depth=900, seed=ck.seed,
+                    exhaustive=False, timeout=3000)
+
+
 def c04(ck):
     ck.rule = ("every program with at most N statement nodes over the statement alphabet {safe read, assign literal, assign copy, "
                "increment, decrement, include with argument, for, capture, if} on 2 (3) reused names x 3 caller data maps x 2 partial "
@@ -174,7 +181,9 @@ def c04(ck):
                       "outcome compared as output text or error-ness, not error message"]
     if ck.tier == "quick":
         ck.replay_stage("n3", "MC_C04", "MC_C04_quick.cfg")
+        deep_random(ck, 1200)
     else:
+        deep_random(ck, 40000)
         ck.replay_stage("n3", "MC_C04", "MC_C04_quick.cfg")
         ck.replay_stage("n4", "MC_C04", "MC_C04_n4.cfg", tlc_workers=12, harness_workers=4, timeout=3400)
         ck.replay_stage("n3x3names", "MC_C04", "MC_C04_3names.cfg", tlc_workers=12, timeout=3400)
@@ -190,6 +199,7 @@ def c05(ck):
     if ck.tier == "quick":
         ck.replay_stage("windows+nested", "MC_C05", "MC_C05_quick.cfg")
     else:
+        deep_random(ck, 20000)
         ck.replay_stage("windows+nested", "MC_C05", "MC_C05_quick.cfg")
         ck.replay_stage("bigger", "MC_C05", "MC_C05_big.cfg", tlc_workers=12, timeout=3400)
 
@@ -231,7 +241,9 @@ def c08(ck):
                       "no recursion between partials"]
     if ck.tier == "quick":
         ck.replay_stage("body1", "MC_C08", "MC_C08_quick.cfg")
+        deep_random(ck, 800)
     else:
+        deep_random(ck, 20000)
         ck.replay_stage("body2", "MC_C08", "MC_C08_thorough.cfg", tlc_workers=12, timeout=3400)
 
 
